@@ -485,9 +485,6 @@ func (f *Func) reachTarget(
 				// Do nothing
 
 			case *valueVertex:
-				// Store the last viewed vertex in our path state
-				state.Value = v.Value
-
 				if pathIdx > 0 {
 					prev := path[pathIdx-1]
 					if r, ok := prev.(*typedOutputVertex); ok {
@@ -495,6 +492,11 @@ func (f *Func) reachTarget(
 						v.Value = r.Value
 					}
 				}
+
+				// Store the last viewed vertex in our path state. This must
+				// happen after we inherit the value from a typed output above
+				// or a typed argument following us on the path sees no value.
+				state.Value = v.Value
 
 				// If we have a valid value set, then put it on our named list.
 				if v.Value.IsValid() {
